@@ -135,7 +135,7 @@ def ident(name, lhs, rhs, dens=(), hyps=(), timeout_ms=None, **extra):
     for d in dens:
         e = e * d
     hs = list(hyps) + [d != 0 for d in dens]
-    g = z3.simplify(e, som=True) == 0
+    g = z3.simplify(e, som=True, som_blowup=10000000) == 0
     return prove(name, g, hs, timeout_ms, **extra)
 
 
